@@ -103,10 +103,9 @@ func VerifH_C19_map() {
 		vp.Assume(ok)
 	}
 	m := new(Map)
+	// three key objects in both tiers; the thorough tier explores one more operation (tables over
+	// four keys are covered by the inductive step harness)
 	nkeys := 3
-	if vp.Thorough() {
-		nkeys = verifNKeys
-	}
 	vp.Assume(cls[3] == 0 || nkeys == verifNKeys)
 	// reference: value and presence per key (shared by all keys of its class)
 	var present [verifNKeys]bool
